@@ -167,5 +167,38 @@ def rrun (r : Relay) : List RStep → Relay
   | [] => r
   | x :: xs => rrun (rstep r x) xs
 
+/-! ### the input relay of `ProcessMidiEvents`: port → internal queue (10) → `midiEventsIn` (8) → consumer -/
+
+structure InRelay where
+  /-- messages that have not arrived on the port yet -/
+  src : List Nat
+  cap1 : Nat
+  cap2 : Nat
+  q1 : List Nat := []
+  q2 : List Nat := []
+  delivered : List Nat := []
+  deriving Repr, Inhabited
+
+inductive IStep | arrive | move | deliver
+  deriving Repr, DecidableEq
+
+def istep (r : InRelay) : IStep → InRelay
+  | .arrive =>
+    match r.src with
+    | m :: rest => if r.q1.length < r.cap1 then { r with src := rest, q1 := r.q1 ++ [m] } else r
+    | [] => r
+  | .move =>
+    match r.q1 with
+    | m :: rest => if r.q2.length < r.cap2 then { r with q1 := rest, q2 := r.q2 ++ [m] } else r
+    | [] => r
+  | .deliver =>
+    match r.q2 with
+    | m :: rest => { r with q2 := rest, delivered := r.delivered ++ [m] }
+    | [] => r
+
+def irun (r : InRelay) : List IStep → InRelay
+  | [] => r
+  | x :: xs => irun (istep r x) xs
+
 end Fan
 end Hidi
